@@ -277,6 +277,8 @@ SOURCES = {
     "u": "def u(c: Parameter[Qint[2]], a: Qint[2]) -> bool:\n\treturn a == c",
     "u2": "def u2(c: Parameter[Qlist[Qint[2], 4]], a: Qint[2]) -> Qint[2]:\n\treturn c[a]",
     "red": "def red(a: bool, b: bool, c: bool) -> bool:\n\treturn (a and b) ^ (c and (a and b))",
+    # a predicate whose circuit DIFFERS between uncompute=True and uncompute=False (re-compilation must be observable)
+    "unc": "def unc(a: Qint[4]) -> bool:\n\treturn a == 3 or a == 7",
     # same name AND same expressions, different signatures (argument order / widths): anything keyed on name+expressions confuses them
     "pick_ab": "def pick(a: bool, b: bool) -> bool:\n\treturn a",
     "pick_ba": "def pick(b: bool, a: bool) -> bool:\n\treturn a",
@@ -313,6 +315,8 @@ def fingerprint(o):
         return o
     if isinstance(o, (list, tuple)):
         return [fingerprint(x) for x in o]
+    if isinstance(o, dict):
+        return {str(k): fingerprint(v) for k, v in o.items()}
     return repr(type(o).__name__)
 
 
@@ -390,6 +394,44 @@ def do_op(op, live):
         return circuit_boolean_optimizer(live[op[1]].circuit())
     if kind == "truth_table":
         return [[bool(x) for x in row] for row in live[op[1]].truth_table()]
+    if kind == "recompile":
+        # a function compiled with one setting, then compiled AGAIN with the other: the object must then hold what a direct compilation with that
+        # setting gives (private object: nothing live is touched); afterwards an export must show the new circuit
+        first, second = op[2], not op[2]
+        obj = qlassf(SOURCES[op[1]], uncompute=first)
+        obj.export("qasm")
+        obj.compile("internal", uncompute=second)
+        direct = qlassf(SOURCES[op[1]], uncompute=second)
+        ok = fingerprint(obj.circuit()) == fingerprint(direct.circuit()) and str(obj.export("qasm")) == str(direct.export("qasm"))
+        if op[1] == "unc" and fingerprint(qlassf(SOURCES[op[1]], uncompute=first).circuit()) == fingerprint(direct.circuit()):
+            raise RuntimeError("harness: the two settings give the same circuit for `unc` - the re-compilation clause would be vacuous")
+        return {"__assert__": ok, "what": f"compile(uncompute={second}) after a compilation with uncompute={first} must give the circuit (and export) of a direct compilation",
+                "gates_after_recompile": len(obj.circuit().gates), "gates_direct": len(direct.circuit().gates)}
+    if kind == "export_twice":
+        # the caller owns what export() returned: changing it must not show in the next export of the same function
+        qf = live[op[1]]
+        r1 = qf.export("qiskit")
+        n1 = len(r1.data)
+        r1.measure_all()
+        r2 = qf.export("qiskit")
+        g1 = qf.gate("qiskit")
+        g1.name = "renamed_by_caller"
+        g2 = qf.gate("qiskit")
+        ok = r2 is not r1 and len(r2.data) == n1 and g2 is not g1 and g2.name != "renamed_by_caller"
+        return {"__assert__": ok, "what": "a second export()/gate() must not return the object the caller already modified",
+                "instructions_first": n1, "instructions_second": len(r2.data), "second_gate_name": g2.name}
+    if kind == "bind_twice":
+        # equal binds give INDEPENDENT functions: recompiling / renaming one must not show in the other, nor in a later bind
+        u = live[op[1]]
+        b1 = u.bind(c=op[2])
+        b2 = u.bind(c=op[2])
+        fp2 = fingerprint(b2)
+        b1.compile("internal", uncompute=False)
+        b1.name = "renamed_by_caller"
+        b3 = u.bind(c=op[2])
+        ok = fingerprint(b2) == fp2 and fingerprint(b3) == fp2
+        return {"__assert__": ok, "what": "bind(v) twice: changing the first result must not change the second, nor what a third bind returns",
+                "second": str(fingerprint(b2))[:200], "third": str(fingerprint(b3))[:200], "expected": str(fp2)[:200]}
     if kind == "to_logicfun":
         lf = live[op[1]].to_logicfun()
         return (lf[0], [(a.name, tuple(a.bitvec)) for a in lf[1]], [(str(s), str(e)) for s, e in lf[3]])
@@ -397,7 +439,7 @@ def do_op(op, live):
 
 
 def needs(op):
-    return [op[1]] if op[0] != "compile" else []
+    return [op[1]] if op[0] not in ("compile", "recompile") else []
 
 
 def builder_of(key):
@@ -453,6 +495,8 @@ def histories(tier, seed):
             ops.append((None, (u, k)))
         if k not in ("o_u", "o_u2"):
             ops += [(None, ("export", k, "qasm")), (None, ("export", k, "qiskit")), (None, ("decompile", k)), (None, ("decopt", k)), (None, ("truth_table", k)), (None, ("to_logicfun", k))]
+    ops += [(None, ("recompile", "unc", True)), (None, ("recompile", "unc", False)), (None, ("recompile", "test_inc", True)),
+            (None, ("export_twice", "o_red")), (None, ("export_twice", "o_inc")), (None, ("bind_twice", "o_u", 1)), (None, ("bind_twice", "o_u2", [1, 2, 3, 0]))]
     ops += [(None, ("oraclize", "o_g", 3)), (None, ("oraclize", "o_or", True)), (None, ("grover_el", "o_g", 3)), ("b1", ("bind", "o_u", 1)), ("b2", ("bind", "o_u", 2)),
             ("t1", ("bind", "o_u2", [1, 2, 3, 0])), ("t2", ("bind", "o_u2", [3, 3, 0, 1])), ("t3", ("bind", "o_u2", [0, 1, 0, 2])),
             (None, ("decopt_preserve", "o_f")), (None, ("decopt_preserve", "o_red")), (None, ("decopt_preserve", "o_tup"))]
@@ -474,7 +518,7 @@ def histories(tier, seed):
         for t_, op_ in clash:
             if t_:
                 clash_creators[t_] = op_
-        forced = [("t1", ("bind", "o_u2", [1, 2, 3, 0])), ("t2", ("bind", "o_u2", [3, 3, 0, 1]))] if i % 2 == 0 else \
+        forced = [("t1", ("bind", "o_u2", [1, 2, 3, 0])), ("t2", ("bind", "o_u2", [3, 3, 0, 1])), (None, ("bind_twice", "o_u", 2)), (None, ("recompile", "unc", i % 4 == 0))] if i % 2 == 0 else \
                  [(None, ("decopt_preserve", "o_redd")), (None, ("export", "o_redd", "qasm")), (None, ("truth_table", "o_redd"))]
         for t, op in chosen + r.sample(extra, 2) + forced + clash:
             for need in needs(op):
@@ -552,6 +596,12 @@ def run(tier, only=None):
                                                                       call="the history is executed in one fresh process; fingerprints of every live object compared before/after the last operation"), **base))
             else:
                 rs.append(res(nm, PROVED, **base))
+            if isinstance(rec["result"], dict) and "__assert__" in rec["result"]:
+                nm = f"C10.dynamic.invariant[{label}]"
+                if rec["result"]["__assert__"]:
+                    rs.append(res(nm, PROVED, **base))
+                else:
+                    rs.append(res(nm, REFUTED, replayed=True, replay=dict(history=htxt, **{k: v for k, v in rec["result"].items() if k != "__assert__"}), **base))
             nm = f"C10.dynamic.same-as-fresh[{label}]"
             ref = refs.get(opkey(op))
             if ref is None:
